@@ -1,0 +1,69 @@
+//go:build verif
+
+package pilosa
+
+import (
+	"fmt"
+)
+
+// Access wrappers for the crash-recovery check (C09). No behaviour, only access.
+
+// VerifDurFragments returns, for every open fragment of the holder, the positions
+// stored in it, keyed by "index/field/view/shard".
+func VerifDurFragments(h *Holder) map[string][]uint64 {
+	out := map[string][]uint64{}
+	for _, idx := range h.Indexes() {
+		for _, fld := range idx.Fields() {
+			for _, v := range fld.views() {
+				for _, frag := range v.allFragments() {
+					frag.mu.RLock()
+					var vals []uint64
+					if frag.storage != nil {
+						vals = frag.storage.Slice()
+					}
+					frag.mu.RUnlock()
+					out[fmt.Sprintf("%s/%s/%s/%d", idx.Name(), fld.Name(), v.name, frag.shard)] = vals
+				}
+			}
+		}
+	}
+	return out
+}
+
+// VerifDurSetMaxOpN sets MaxOpN on every open fragment of the holder (the server has
+// no configuration option for it; the default is 10000).
+func VerifDurSetMaxOpN(h *Holder, n int) {
+	for _, idx := range h.Indexes() {
+		for _, fld := range idx.Fields() {
+			for _, v := range fld.views() {
+				for _, frag := range v.allFragments() {
+					frag.mu.Lock()
+					frag.MaxOpN = n
+					frag.mu.Unlock()
+				}
+			}
+		}
+	}
+}
+
+// VerifDurAwaitSnapshots blocks until no fragment of the holder has a snapshot pending.
+func VerifDurAwaitSnapshots(h *Holder) {
+	for _, idx := range h.Indexes() {
+		for _, fld := range idx.Fields() {
+			for _, v := range fld.views() {
+				for _, frag := range v.allFragments() {
+					frag.awaitSnapshot()
+				}
+			}
+		}
+	}
+}
+
+// VerifDurTranslateFile returns the holder's key translation store.
+func VerifDurTranslateFile(h *Holder) *TranslateFile { return h.translateFile }
+
+// VerifDurSetTranslateFile replaces the holder's key translation store (before Open).
+func VerifDurSetTranslateFile(h *Holder, t *TranslateFile) { h.translateFile = t }
+
+// VerifDurShardWidth is the number of columns per shard.
+const VerifDurShardWidth = ShardWidth
